@@ -2,6 +2,7 @@
 //! One module per property (`cNN.rs`, `pub fn run(args: &hcore::Args, out: &mut hcore::Out)`).
 
 mod c20;
+mod c21;
 mod c22;
 
 fn main() {
@@ -10,6 +11,7 @@ fn main() {
     let mut out = hcore::Out::new();
     match args.prop.as_str() {
         "C20" => c20::run(&args, &mut out),
+        "C21" => c21::run(&args, &mut out),
         "C22" => c22::run(&args, &mut out),
         p => {
             let _ = &mut out;
